@@ -101,6 +101,9 @@ func buildScenarios(t *gen.Tree, good []string, rng *rand.Rand, tier string) []*
 			}
 		}
 	}
+	for fi, f := range fmts {
+		out = append(out, &scen{family: "success-out-over-other-layout", tree: t, argvPre: append([]string{}, f...), srcArg: ".", names: pick(1), cwdRel: src, out: mkOut(fi), prior: "ownlayout"})
+	}
 	out = append(out, &scen{family: "success-stdout", tree: t, srcArg: ".", names: pick(2), cwdRel: src, prior: "absent"})
 	out = append(out, &scen{family: "success-stdout", tree: t, argvPre: []string{"-stub", "-pkg", t.SrcName + "_test"}, srcArg: "./" + src, names: pick(1), cwdRel: ".", prior: "absent"})
 	// ---- failures: bad name at position k of n
@@ -317,6 +320,30 @@ func execScenario(moq *runner.Moq, work string, worker int, s *scen) (*cliOutcom
 				}
 			}
 			os.WriteFile(o.outAbs, own, 0o644)
+		case "ownlayout":
+			// the same declarations in another layout: what -fmt noop (or, for noop requests, gofmt) produced
+			alt := *s
+			alt.out, alt.rm = "", false
+			hasFmt := false
+			for i, a := range alt.argvPre {
+				if a == "-fmt" && i+1 < len(alt.argvPre) {
+					hasFmt = true
+					pre := append([]string{}, alt.argvPre...)
+					if pre[i+1] == "noop" {
+						pre[i+1] = "gofmt"
+					} else {
+						pre[i+1] = "noop"
+					}
+					alt.argvPre = pre
+				}
+			}
+			if !hasFmt {
+				alt.argvPre = append([]string{"-fmt", "noop"}, alt.argvPre...)
+			}
+			if r := moq.Run(cwd, alt.argv(), runner.Opts{}); r.Exit == 0 {
+				os.MkdirAll(filepath.Dir(o.outAbs), 0o755)
+				os.WriteFile(o.outAbs, r.Stdout, 0o644)
+			}
 		case "dir":
 			os.MkdirAll(o.outAbs, 0o755)
 		}
